@@ -121,6 +121,10 @@ def cases(seed=0, thorough=False):
         add("def mk_%d():\n    def tag_%d(e):\n        return e.mi_tag(\"\"\"run\n%s\"\"\") + %s\n    return tag_%d\nr = ds.Select(mk_%d())" % (a, a, cont, body(a, "e"), a, a),
             # {S}: the string constant is read from the passed function's code object (the enclosing context indents the file text)
             ["lambda e: e.mi_tag({S}) + %s" % body(a, "e")], False, "O7 one-line def with a multi-line string, defined at an indented level")
+    # a one-line function under a decorator that uses functools.wraps: what is passed is the wrapper, not the text inspect finds
+    a = nb()
+    add("def deco_%d(fn):\n    @functools.wraps(fn)\n    def scaled(x):\n        return fn(x) + 1000\n    return scaled\n@deco_%d\ndef pt_%d(x):\n    return %s\nr = ds.Select(pt_%d)" % (a, a, a, body(a, "x"), a),
+        ["lambda x: (%s) + 1000" % body(a, "x")], False, "O10 one-line def under a functools.wraps decorator")
     # a user's own class with a method called Select that runs the function it is given at once; the function holds the real call, with the same parameter name
     a = nb()
     add("class Holder_%d:\n    def __init__(self, s):\n        self.s = s\n\n    def Select(self, fn):\n        return fn(self.s)\nr = Holder_%d(ds).Select(lambda e: e.Select(lambda e: %s))" % (a, a, body(a, "e")),
